@@ -5,8 +5,8 @@ open Lean Shelx.J
 namespace Shelx.Drv.C03
 open Shelx.C03
 
-/-- `["part", n, sof] | ["afix", mn] | ["resi", cls, num] | ["atom", tag, sfac, sof, [u…]] | ["frag"] | ["fend"] |
-    ["hklf"] | ["end"] | ["other"]` -/
+/-- `["part", n, sof] | ["afix", mn] | ["resi", cls, num] | ["atom", tag, sfac, sof, [u…]] | ["frag", np] | ["fend"] |
+    ["hklf", np] | ["end"] | ["other"]` (np = number of parameters written on the line) -/
 def lineOf (j : Json) : Except String Line := do
   let l ← arr j
   match l with
@@ -18,9 +18,11 @@ def lineOf (j : Json) : Except String Line := do
     | "afix", [mn] => return .afix (← int mn)
     | "resi", [c, n] => return .resi (← str c) (← int n)
     | "atom", [t, sf, f, u] => return .atom { tag := ← nat t, sfac := ← int sf, sof := ← rat f, u := ← rats u }
-    | "frag", [] => return .frag
+    | "frag", [np] => return .frag (← nat np)
+    | "frag", [] => return .frag 7          -- (replays written before the forms were distinguished)
     | "fend", [] => return .fend
-    | "hklf", [] => return .hklf
+    | "hklf", [np] => return .hklf (← nat np)
+    | "hklf", [] => return .hklf 1
     | "end", [] => return .fin
     | "other", [] => return .other
     | _, _ => err s!"bad line {j.compress}"
@@ -102,7 +104,9 @@ def handle (j : Json) : Except String Json := do
     let table := (sfacTable instrs, specSfacTable instrs)
     let classes ← field j "classes" >>= strs
     let m := observe (run lines)
-    let b := observe (runBug lines)
+    -- "brief": the answer without the (large, only informative) result of the code before the fixes
+    let brief := match fieldOpt j "brief" with | some (Json.bool true) => true | _ => false
+    let b := if brief then [] else observe (runBug lines)
     let sp := specAtoms lines
     let mOk := m.filterMap id
     return Json.mkObj [("valid", Json.bool (valid lines)),
